@@ -12,6 +12,7 @@ import RdsProps.C10
 import RdsProps.C11
 import RdsProps.C12
 import RdsProps.C13
+import RdsProps.C14
 import RdsProps.C16
 import RdsProps.C17
 /-!
@@ -20,12 +21,15 @@ import RdsProps.C17
 `RdsC/Translated.lean` is regenerated from `/repo/src/*.c` on every run. The theorems collected here state that every
 translated function, read through the abstraction `abs` (what the getters return), IS the corresponding function of the
 hand-written model, for arguments in the C API's ranges; `crun_refines` lifts this to every history of translated API
-calls. The `*_source` corollaries restate the history theorems for the translated source: the observations they speak
+calls — `rdsparser_parse_string` included: `utils_convert_refines` shows that `rdsparser_utils_convert`, which calls the
+trusted libc models `libc_strlen / libc_isxdigit / libc_strtol16` of `RdsC/Prelude.lean`, is the strict `utilsConvert`. The `*_source` corollaries restate the history theorems for the translated source: the observations they speak
 about are those of the C state `crun u ops`, under the configuration `cfgC u` that the source text itself defines.
 -/
 -- THEOREM: RDS.C.crun_refines
 -- THEOREM: RDS.C.cstep_refines
 -- THEOREM: RDS.C.process_refines
+-- THEOREM: RDS.C.parse_string_refines
+-- THEOREM: RDS.C.utils_convert_refines
 -- THEOREM: RDS.C.ecc_lookup_refines
 -- THEOREM: RDS.C.update_single_refines
 -- THEOREM: RDS.C.parser_update_string_refines
@@ -45,6 +49,9 @@ about are those of the C state `crun u ops`, under the configuration `cfgC u` th
 -- THEOREM: RDS.C.cfgC_g0_generated
 -- THEOREM: RDS.C.cfgC_ecc_generated
 -- THEOREM: RDS.C.sourceEccOk
+-- THEOREM: RDS.C.tt_ecc_range
+-- THEOREM: RDS.C.recOfC_eq
+-- THEOREM: RDS.C.recOfC_run
 -- THEOREM: RDS.C.C01_source
 -- THEOREM: RDS.C.C04_source
 -- THEOREM: RDS.C.C09_source
@@ -58,87 +65,128 @@ about are those of the C state `crun u ops`, under the configuration `cfgC u` th
 -- THEOREM: RDS.C.C12_source
 -- THEOREM: RDS.C.C13_source
 -- THEOREM: RDS.C.C17_source
+-- THEOREM: RDS.C.C14_source
 -- THEOREM: RDS.C.C03_source
 namespace RDS.C
 open RDS
 
-/-- the tables of the source text, with the range of `rdsparser_country_t` as enumerator bound -/
-def sourceTabs (u : Bool) : Tabs := ⟨cfgC u, 256⟩
+/-- the tables of the source text, with the number of country enumerators (read out of the compiled library) as bound -/
+def sourceTabs (u : Bool) : Tabs := ⟨cfgC u, Generated.countryCount⟩
 
-/-- the ECC look-up of the source satisfies the range contract the logic proofs assume -/
+/-- the ECC look-up of the source satisfies the range contract the logic proofs assume: every value it can return is
+a valid country enumerator (`tt_ecc_range`, decided over the four LUT initializers of the source text) -/
 theorem sourceEccOk (u : Bool) : EccOk (sourceTabs u) := by
-  refine ⟨by show 0 < 256; omega, ?_⟩
+  refine ⟨by show 0 < Generated.countryCount; decide, ?_⟩
   intro n e
-  have h := tg_ecc_range ((n : Int) * 4096) (e : Int)
-  show (c_rdsparser_ecc_lookup ((n : Int) * 4096) (e : Int)).toNat < 256
+  have h := tt_ecc_range ((n : Int) * 4096) (e : Int)
+  show (c_rdsparser_ecc_lookup ((n : Int) * 4096) (e : Int)).toNat < Generated.countryCount
   omega
+
+/-! ## the observer's record of one call, taken entirely from the translated C -/
+
+/-- the value the C call returns (`rdsparser_parse_string` is the only one that returns something) -/
+def cret (u : Bool) (r : C_librdsparser) : Op → Bool
+  | .parseString s => (c_rdsparser_parse_string u r (cstrArg s) []).1 != 0
+  | _ => true
+
+/-- what an observer of the translated C sees of call `op` made in C state `r`: the getters before, the getters after
+`cstep`, the callbacks `cstep` logged, the C return value -/
+def recOfC (u : Bool) (r : C_librdsparser) (op : Op) : StepRec :=
+  ⟨op, Obs.ofState (abs r), Obs.ofState (abs (cstep u r op).1), (absLog (cstep u r op).2).map EvObs.ofEvent, cret u r op⟩
+
+/-- … is the model's record of the same call in the abstracted state -/
+theorem recOfC_eq (u : Bool) (r : C_librdsparser) (hI : CInv r) (op : Op) (hop : Op.Translatable op) :
+    recOfC u r op = recOf (cfgC u) (abs r) op := by
+  obtain ⟨h1, h2, _⟩ := cstep_refines u r hI op hop
+  have hret : cret u r op = (step (cfgC u) (abs r) op).2.2 := by
+    cases op with
+    | parseString s =>
+      have h := (parse_string_refines u r hI s hop []).2.2.2
+      simp only [cret, h]
+      cases (step (cfgC u) (abs r) (.parseString s)).2.2 <;> simp [b2i]
+    | _ => rfl
+  unfold recOfC recOf
+  simp only [h1, h2, hret]
+
+/-- the record of the call following any history of API calls, all of it executed by the translated C -/
+theorem recOfC_run (u : Bool) (ops : List Op) (hops : ∀ op ∈ ops, Op.Translatable op) (op : Op) (hop : Op.Translatable op) :
+    recOfC u (crun u ops) op = recOf (cfgC u) (run (cfgC u) ops) op := by
+  rw [recOfC_eq u _ (crun_refines u ops hops).2 op hop, (crun_refines u ops hops).1]
 
 /-- C01 for the translated source: after every history of translated API calls and for every next call, the
 observer's record taken from the C state satisfies `chkC01` -/
-theorem C01_source (u : Bool) (ops : List Op) (hops : ∀ op ∈ ops, Op.Translatable op) (op : Op) :
-    chkC01 (monAfter (cfgC u) (ops ++ [op])) (recOf (cfgC u) (abs (crun u ops)) op) = true := by
-  rw [(crun_refines u ops hops).1]
+theorem C01_source (u : Bool) (ops : List Op) (hops : ∀ op ∈ ops, Op.Translatable op) (op : Op) (hop : Op.Translatable op) :
+    chkC01 (monAfter (cfgC u) (ops ++ [op])) (recOfC u (crun u ops) op) = true := by
+  rw [recOfC_run u ops hops op hop]
   exact C01 (sourceTabs u) (sourceEccOk u) ops op
 
-theorem C04_source (u : Bool) (ops : List Op) (hops : ∀ op ∈ ops, Op.Translatable op) (op : Op) :
-    chkC04 (monAfter (cfgC u) ops) (recOf (cfgC u) (abs (crun u ops)) op) = true := by
-  rw [(crun_refines u ops hops).1]
+theorem C04_source (u : Bool) (ops : List Op) (hops : ∀ op ∈ ops, Op.Translatable op) (op : Op) (hop : Op.Translatable op) :
+    chkC04 (monAfter (cfgC u) ops) (recOfC u (crun u ops) op) = true := by
+  rw [recOfC_run u ops hops op hop]
   exact C04 (sourceTabs u) (sourceEccOk u) ops op
 
-theorem C09_source (u : Bool) (ops : List Op) (hops : ∀ op ∈ ops, Op.Translatable op) (op : Op) :
-    chkC09 (monAfter (cfgC u) (ops ++ [op])) (recOf (cfgC u) (abs (crun u ops)) op) = true := by
-  rw [(crun_refines u ops hops).1]
+theorem C09_source (u : Bool) (ops : List Op) (hops : ∀ op ∈ ops, Op.Translatable op) (op : Op) (hop : Op.Translatable op) :
+    chkC09 (monAfter (cfgC u) (ops ++ [op])) (recOfC u (crun u ops) op) = true := by
+  rw [recOfC_run u ops hops op hop]
   exact C09 (sourceTabs u) (sourceEccOk u) ops op
 
-theorem C16_source (u : Bool) (ops : List Op) (hops : ∀ op ∈ ops, Op.Translatable op) (op : Op) :
-    chkC16 (cfgC u) (recOf (cfgC u) (abs (crun u ops)) op) = true := by
-  rw [(crun_refines u ops hops).1]
+theorem C16_source (u : Bool) (ops : List Op) (hops : ∀ op ∈ ops, Op.Translatable op) (op : Op) (hop : Op.Translatable op) :
+    chkC16 (cfgC u) (recOfC u (crun u ops) op) = true := by
+  rw [recOfC_run u ops hops op hop]
   exact C16 (sourceTabs u) (sourceEccOk u) ops op
 
-theorem C02_source (u : Bool) (ops : List Op) (hops : ∀ op ∈ ops, Op.Translatable op) (op : Op) :
-    chkC02 (cfgC u) (monAfter (cfgC u) ops) (recOf (cfgC u) (abs (crun u ops)) op) = true := by
-  rw [(crun_refines u ops hops).1]
+theorem C02_source (u : Bool) (ops : List Op) (hops : ∀ op ∈ ops, Op.Translatable op) (op : Op) (hop : Op.Translatable op) :
+    chkC02 (cfgC u) (monAfter (cfgC u) ops) (recOfC u (crun u ops) op) = true := by
+  rw [recOfC_run u ops hops op hop]
   exact C02 (sourceTabs u) (sourceEccOk u) ops op
 
-theorem C06_source (u : Bool) (ops : List Op) (hops : ∀ op ∈ ops, Op.Translatable op) (op : Op) :
-    chkC06 (cfgC u) (monAfter (cfgC u) ops) (recOf (cfgC u) (abs (crun u ops)) op) = true := by
-  rw [(crun_refines u ops hops).1]
+theorem C06_source (u : Bool) (ops : List Op) (hops : ∀ op ∈ ops, Op.Translatable op) (op : Op) (hop : Op.Translatable op) :
+    chkC06 (cfgC u) (monAfter (cfgC u) ops) (recOfC u (crun u ops) op) = true := by
+  rw [recOfC_run u ops hops op hop]
   exact C06 (sourceTabs u) (sourceEccOk u) ops op
 
-theorem C07_source (u : Bool) (ops : List Op) (hops : ∀ op ∈ ops, Op.Translatable op) (op : Op) :
-    chkC07 (monAfter (cfgC u) ops) (recOf (cfgC u) (abs (crun u ops)) op) = true := by
-  rw [(crun_refines u ops hops).1]
+theorem C07_source (u : Bool) (ops : List Op) (hops : ∀ op ∈ ops, Op.Translatable op) (op : Op) (hop : Op.Translatable op) :
+    chkC07 (monAfter (cfgC u) ops) (recOfC u (crun u ops) op) = true := by
+  rw [recOfC_run u ops hops op hop]
   exact C07 (sourceTabs u) (sourceEccOk u) ops op
 
-theorem C08_source (u : Bool) (ops : List Op) (hops : ∀ op ∈ ops, Op.Translatable op) (op : Op) :
-    chkC08 (monAfter (cfgC u) ops) (recOf (cfgC u) (abs (crun u ops)) op) = true := by
-  rw [(crun_refines u ops hops).1]
+theorem C08_source (u : Bool) (ops : List Op) (hops : ∀ op ∈ ops, Op.Translatable op) (op : Op) (hop : Op.Translatable op) :
+    chkC08 (monAfter (cfgC u) ops) (recOfC u (crun u ops) op) = true := by
+  rw [recOfC_run u ops hops op hop]
   exact C08 (sourceTabs u) (sourceEccOk u) ops op
 
-theorem C10_source (u : Bool) (ops : List Op) (hops : ∀ op ∈ ops, Op.Translatable op) (op : Op) :
-    chkC10 (monAfter (cfgC u) (ops ++ [op])) (recOf (cfgC u) (abs (crun u ops)) op) = true := by
-  rw [(crun_refines u ops hops).1]
+theorem C10_source (u : Bool) (ops : List Op) (hops : ∀ op ∈ ops, Op.Translatable op) (op : Op) (hop : Op.Translatable op) :
+    chkC10 (monAfter (cfgC u) (ops ++ [op])) (recOfC u (crun u ops) op) = true := by
+  rw [recOfC_run u ops hops op hop]
   exact C10 (sourceTabs u) (sourceEccOk u) ops op
 
-theorem C11_source (u : Bool) (ops : List Op) (hops : ∀ op ∈ ops, Op.Translatable op) (op : Op) :
-    chkC11 (sourceTabs u) (monAfter (cfgC u) (ops ++ [op])) (recOf (cfgC u) (abs (crun u ops)) op) = true := by
-  rw [(crun_refines u ops hops).1]
+theorem C11_source (u : Bool) (ops : List Op) (hops : ∀ op ∈ ops, Op.Translatable op) (op : Op) (hop : Op.Translatable op) :
+    chkC11 (sourceTabs u) (monAfter (cfgC u) (ops ++ [op])) (recOfC u (crun u ops) op) = true := by
+  rw [recOfC_run u ops hops op hop]
   exact C11 (sourceTabs u) (sourceEccOk u) ops op
 
-theorem C12_source (u : Bool) (ops : List Op) (hops : ∀ op ∈ ops, Op.Translatable op) (op : Op) :
-    chkC12 (monAfter (cfgC u) ops) (recOf (cfgC u) (abs (crun u ops)) op) = true := by
-  rw [(crun_refines u ops hops).1]
+theorem C12_source (u : Bool) (ops : List Op) (hops : ∀ op ∈ ops, Op.Translatable op) (op : Op) (hop : Op.Translatable op) :
+    chkC12 (monAfter (cfgC u) ops) (recOfC u (crun u ops) op) = true := by
+  rw [recOfC_run u ops hops op hop]
   exact C12 (sourceTabs u) (sourceEccOk u) ops op
 
-theorem C13_source (u : Bool) (ops : List Op) (hops : ∀ op ∈ ops, Op.Translatable op) (op : Op) :
-    chkC13 (recOf (cfgC u) (abs (crun u ops)) op) = true := by
-  rw [(crun_refines u ops hops).1]
+theorem C13_source (u : Bool) (ops : List Op) (hops : ∀ op ∈ ops, Op.Translatable op) (op : Op) (hop : Op.Translatable op) :
+    chkC13 (recOfC u (crun u ops) op) = true := by
+  rw [recOfC_run u ops hops op hop]
   exact C13 (sourceTabs u) (sourceEccOk u) ops op
 
-theorem C17_source (u : Bool) (ops : List Op) (hops : ∀ op ∈ ops, Op.Translatable op) (op : Op) :
-    chkC17 (monAfter (cfgC u) (ops ++ [op])) (recOf (cfgC u) (abs (crun u ops)) op) = true := by
-  rw [(crun_refines u ops hops).1]
+theorem C17_source (u : Bool) (ops : List Op) (hops : ∀ op ∈ ops, Op.Translatable op) (op : Op) (hop : Op.Translatable op) :
+    chkC17 (monAfter (cfgC u) (ops ++ [op])) (recOfC u (crun u ops) op) = true := by
+  rw [recOfC_run u ops hops op hop]
   exact C17 (sourceTabs u) (sourceEccOk u) ops op
+
+/-- C14 for the translated source: `rdsparser_parse_string` as written in `utils.c`/`rdsparser.c` (over the libc models
+of `RdsC/Prelude.lean`) accepts exactly the 16/18-digit hexadecimal strings, acts as `rdsparser_parse` on the decoded
+group, and otherwise returns false and changes nothing -/
+theorem C14_source (u : Bool) (ops : List Op) (hops : ∀ op ∈ ops, Op.Translatable op) (op : Op) (hop : Op.Translatable op) :
+    chkC14 (recOfC u (crun u ops) op) = true := by
+  rw [recOfC_run u ops hops op hop]
+  exact C14 (cfgC u) ops op
 
 /-- C03 for the translated source: in any reachable C state, two groups that differ only in unused blocks
 (`sameUsed` with the settings the getters show) lead to C states denoting the same model state, and to the same
